@@ -26,6 +26,8 @@ Routines and classes for creating priors and timeslices for use in tsdate
 
 import logging
 import os
+import tempfile
+import warnings
 from collections import defaultdict, namedtuple
 
 import numpy as np
@@ -144,10 +146,13 @@ class ConditionalCoalescentTimes:
         if precalc_approximation_n:
             # Create lookup table based on a large n that can be used for n > ~50
             filename = self.get_precalc_cache(precalc_approximation_n)
+            self.approx_priors = None
             if os.path.isfile(filename):
                 # Have already calculated and stored this
-                self.approx_priors = np.genfromtxt(filename)
-            else:
+                self.approx_priors = self.load_precalculated_priors(
+                    filename, precalc_approximation_n
+                )
+            if self.approx_priors is None:
                 # Calc and store
                 self.approx_priors = self.precalculate_priors_for_approximation(
                     precalc_approximation_n,
@@ -264,8 +269,45 @@ class ConditionalCoalescentTimes:
         all_tips = np.arange(2, n + 1)
         prior_lookup_table[1:, 0] = all_tips / n
         prior_lookup_table[1:, 1] = conditional_coalescent_variance(n + 1)[all_tips]
-        np.savetxt(self.get_precalc_cache(n), prior_lookup_table)
+        # Write to a temporary file then rename, so that an interrupted or concurrent
+        # write can never leave a partial table under the cache file name
+        filename = self.get_precalc_cache(n)
+        fd, tmp_filename = tempfile.mkstemp(
+            dir=os.path.dirname(filename),
+            prefix=os.path.basename(filename) + ".",
+            suffix=".tmp",
+        )
+        try:
+            with os.fdopen(fd, "w") as f:
+                np.savetxt(f, prior_lookup_table)
+            os.replace(tmp_filename, filename)
+        except BaseException:
+            if os.path.isfile(tmp_filename):
+                os.remove(tmp_filename)
+            raise
         return prior_lookup_table
+
+    @staticmethod
+    def load_precalculated_priors(filename, n):
+        """
+        Read the cached lookup table for ``n`` tips, returning None if the file
+        is not a complete table (in which case it should be recalculated)
+        """
+        try:
+            with warnings.catch_warnings():
+                warnings.simplefilter("ignore")
+                table = np.genfromtxt(filename)
+        except (ValueError, OSError):
+            table = None
+        if (
+            table is None
+            or table.shape != (n, 2)
+            or not np.all(np.isfinite(table))
+            or not np.array_equal(table[1:, 0], np.arange(2, n + 1) / n)
+        ):
+            logging.warning(f"Ignoring invalid prior cache file `{filename}`")
+            return None
+        return table
 
     def clear_precalculated_priors(self):
         if os.path.isfile(self.get_precalc_cache(self.n_approx)):
